@@ -204,9 +204,24 @@ def value_class(t, v):
 def run_cases(pvs, thorough, handler_names, slice_=(0, 1), only=None, fp_prefix='C39'):
     """Enumerate; returns a Part.  handler_names: attribute names of cassandra.protocol to decode with."""
     import logging
+    import resource
     logging.getLogger('cassandra').setLevel(logging.CRITICAL)
     part = Part()
     idx = -1
+    # self-protection: a broken tree may turn an integer into a buffer of that many bytes (bytes(2**33));
+    # with a 1.5 GiB address-space cap that is a quick MemoryError (reported as a bind failure), not a stalled machine
+    soft, hard = resource.getrlimit(resource.RLIMIT_AS)
+    cap = 3 << 29
+    if hard != resource.RLIM_INFINITY:
+        cap = min(cap, hard)
+    resource.setrlimit(resource.RLIMIT_AS, (cap, hard))
+    try:
+        return _run_cases(part, idx, pvs, thorough, handler_names, slice_, only, fp_prefix)
+    finally:
+        resource.setrlimit(resource.RLIMIT_AS, (soft, hard))
+
+
+def _run_cases(part, idx, pvs, thorough, handler_names, slice_, only, fp_prefix):
     for pv in pvs:
         worlds = {}
         for lay, rows, tag in layouts_and_rows(pv, thorough):
